@@ -825,10 +825,10 @@ var carriedAllowedSync = map[string]string{
 }
 
 var carriedAllowedAverages = map[string]string{
-	"pegnet.BlockSync.Synced":           carriedAllowedSync["pegnet.BlockSync.Synced"],
-	"node.Pegnetd.LastAverages":         "rolling-average cache: its restart dependence is the known finding recorded under C09; it is filled from committed rows of earlier heights only, so a rolled-back attempt leaves it as a committed one would",
-	"node.Pegnetd.LastAveragesData":     "see LastAverages",
-	"node.Pegnetd.LastAveragesHeight":   "see LastAverages",
+	"pegnet.BlockSync.Synced":         carriedAllowedSync["pegnet.BlockSync.Synced"],
+	"node.Pegnetd.LastAverages":       "rolling-average cache: its restart dependence is the known finding recorded under C09; it is filled from committed rows of earlier heights only, so a rolled-back attempt leaves it as a committed one would",
+	"node.Pegnetd.LastAveragesData":   "see LastAverages",
+	"node.Pegnetd.LastAveragesHeight": "see LastAverages",
 }
 
 // unsyncValueType names the standard-library value types whose methods mutate the receiver without any
